@@ -36,6 +36,10 @@ type DB struct {
 	closedChan      chan struct{}                 // 用于控制后台持久化协程关闭的通道
 	recordPool      *sync.Pool                    // 记录结构体缓冲池
 	closed          bool                          // 数据库关闭标识
+	// 尚未提交的批处理已刷盘的 key 在该批处理之前的索引位置 (nil 表示此前不存在)
+	// 批处理完成标识写入之前索引已指向其记录, merge 须保留这些旧记录, 否则崩溃后批处理被丢弃而旧值已被回收
+	unsealedOld map[string]*datafile.DataPos
+	unsealedMu  sync.Mutex
 }
 
 // Stat 实时统计信息
@@ -640,6 +644,33 @@ func (db *DB) getValueByPosition(logRecordPos *datafile.DataPos) ([]byte, error)
 	}
 
 	return value, nil
+}
+
+// 记录未提交批处理覆盖 key 之前的索引位置, 须在索引更新之前调用
+func (db *DB) noteUnsealed(key []byte, oldPos *datafile.DataPos) {
+	db.unsealedMu.Lock()
+	if db.unsealedOld == nil {
+		db.unsealedOld = make(map[string]*datafile.DataPos)
+	}
+	// 同一批处理多次覆盖同一 key 时保留批处理之前的位置
+	if _, ok := db.unsealedOld[string(key)]; !ok {
+		db.unsealedOld[string(key)] = oldPos
+	}
+	db.unsealedMu.Unlock()
+}
+
+// 批处理完成标识已写入, 其记录不再可能被丢弃
+func (db *DB) clearUnsealed() {
+	db.unsealedMu.Lock()
+	db.unsealedOld = nil
+	db.unsealedMu.Unlock()
+}
+
+// 返回 key 被未提交批处理覆盖之前的索引位置
+func (db *DB) unsealedOldPos(key []byte) *datafile.DataPos {
+	db.unsealedMu.Lock()
+	defer db.unsealedMu.Unlock()
+	return db.unsealedOld[string(key)]
 }
 
 func (db *DB) putRecordToPool(logRecord *datafile.LogRecord) {
